@@ -61,7 +61,7 @@ def cases(tier, seed):
 
 
 def getters(S, seq, want, salted=None):
-    o = S["SP"](seq)
+    o = S["SP"](seq) if salted is None else SALT.make_object(S, seq, salted[0], salted[1])
     if salted is not None:
         SALT.salt(S, o, seq, salted[0], salted[1], k=1, cheap=len(seq) > 100)
     out = {}
